@@ -178,6 +178,8 @@ func init() {
 			return old(e, st, c)
 		}
 	}
+	// fmt.Sprintf may quote a character vector (%q): let it fork on the character classes
+	intrinsics["fmt.Sprintf"] = forking(intrinsics["fmt.Sprintf"])
 	wrap("net.JoinHostPort", func(e *Engine, st *State, c *callCtx) bool {
 		ht, ok := c.args[0].(*Term)
 		pt, ok2 := c.args[1].(*Term)
